@@ -333,6 +333,21 @@ def r_status_success(rep, f):
             except rk.AnalysisError as e:
                 rep.inconc("R-STATUS-SUCCESS", key0 + ":assume", str(e))
                 continue
+            # the iteration that REJECTS its step goes round the loop as well: the invariant must survive it (a rejected
+            # landing step is shortened, so the flag has to be cleared on every rejected path)
+            rejected_runs = []
+            try:
+                rejected_runs = [("rejected," + t_, s_, h_) for t_, s_, h_ in rk.analyse_variants(f, fn, head_assume={fl: TRUE, skey: xend - Poly.atom("X")}, accept="else")]
+                rejected_runs += [("rejected," + t_, s_, h_) for t_, s_, h_ in rk.analyse_variants(f, fn, head_assume={fl: FALSE}, accept="else")]
+            except rk.AnalysisError:
+                rejected_runs = []
+            for t2, s2, h2 in rejected_runs:
+                for L in (h2.latch or []):
+                    if L.get(fl) == TRUE:
+                        hv, xl = L.get(skey), L.get(h2.xkey)
+                        if not (isinstance(hv, Poly) and isinstance(xl, Poly) and hv == xend - xl):
+                            problems["flag-invariant-rejected"] = ("after a rejected step the last-step flag is still set while the step is %r, not xend - x (x = %r): the next accepted step "
+                                                                   "ends the run with Success before xend (path variant %s)" % (hv, xl, t2), where)
             for t2, s2, h2 in runs + assume_true + assume_false:
                 for L in (h2.latch or []):
                     if L.get(fl) == TRUE or (isinstance(L.get(fl), Poly) and L.get(fl) != FALSE and t2 is None):
